@@ -870,12 +870,40 @@ class Facts:
         self.bodies = {}
         for b in j["bodies"]:
             self.bodies[b["key"]] = Body(b, self)
+        self._mark_extension_methods()
         self._resolve_into_calls()
         self._rewrite_inplace_twins()
         self.adts = {a["path"]: a for a in j["adts"]}
         self.consts = {c["key"]: c for c in j["consts"]}
         self.unsafe_blocks = j["unsafe_blocks"]
         self.impls = j["impls"]
+
+    def _mark_extension_methods(self):
+        """A method of a LOCAL trait implemented for a FOREIGN type (`trait NameList { fn contains(&self, ..) }` for
+        `Vec<String>`) can carry the name of a std / nalgebra method and win method resolution at an earlier auto-ref
+        step — the call site does not change. Rules recognise library methods by their path; such a call must never be
+        taken for the library method of the same name: its name is marked, so that it is only ever understood through
+        its own body (it is a local function like any other)."""
+        if self.crate != "varpro":
+            return
+        local_adts = set(a["path"] for a in self.j.get("adts", []))
+        for b in self.bodies.values():
+            for blk in b.j["blocks"]:
+                t = blk["term"]
+                f = t.get("fn") if t.get("k") == "call" else None
+                if not f or f.get("krate") != self.crate or not f.get("trait") or f.get("ext_marked"):
+                    continue
+                tr = f["trait"].split("<", 1)[0]
+                if tr.startswith(("std::", "core::", "alloc::", "nalgebra", "levenberg_marquardt", "rayon", "num_traits", "approx")):
+                    continue
+                st = (f.get("self_ty") or "").lstrip("&").replace("mut ", "").strip()
+                head = st.split("<", 1)[0]
+                foreign = head.startswith(("std::", "core::", "alloc::", "nalgebra", "[", "str", "usize", "f32", "f64", "bool", "(", "levenberg_marquardt"))
+                if not foreign or head in local_adts:
+                    continue
+                f["ext_marked"] = True
+                f["name"] = f["name"] + "·ext"
+                f["path"] = f["path"] + "·ext"
 
     def _resolve_into_calls(self):
         """`x.into()` resolves to std's blanket `impl<T, U: From<T>> Into<U> for T`, whose body is `U::from(x)`: when the
